@@ -80,7 +80,7 @@ class Observer:
 
     def tree(self, node):
         if isinstance(node, LoggedAction):
-            return {"s": self.idx(node.start_message), "e": self.idx(node.end_message), "ok": node.succeeded is True,
+            return {"s": self.idx(node.start_message), "e": self.idx(node.end_message), "ok": bool(node.succeeded),
                     "ch": [self.tree(c) for c in node.children]}
         if isinstance(node, LoggedMessage):
             return {"m": self.idx(node.message)}
@@ -143,22 +143,34 @@ class Observer:
         arg = ActionType(ty, [], [], "") if as_object else ty
         try:
             acts = LoggedAction.of_type(self.messages, arg)
-        except ValueError:
+        except Exception as e:                       # ValueError is the documented one; anything counts as "raised"
             res["err"] = True
+            res["exc"] = type(e).__name__
             acts = []
         for la in acts:
             res["acts"].append(self.tree(la))
             res["ptrees"].append(self.parser_subtree(la.start_message["task_uuid"], la.start_message["task_level"]))
-            ds = list(la.descendants())
-            res["desc"].append([(-self.idx(d.start_message)) if isinstance(d, LoggedAction) else self.idx(d.message) for d in ds])
-            # the objects yielded are the nodes of the tree (not copies of something else)
-            if ds != list(self.walk(la)):
-                res["notes"].append("descendants_are_not_the_tree_nodes")
-            res["tt"].append(self.type_tree(la.type_tree()))
-            if la.start_message is not la.startMessage or la.end_message is not la.endMessage:
+            try:
+                ds = list(la.descendants())
+                res["desc"].append([(-self.idx(d.start_message)) if isinstance(d, LoggedAction) else self.idx(d.message) for d in ds])
+                # the objects yielded are the nodes of the tree (not copies of something else)
+                if ds != list(self.walk(la)):
+                    res["notes"].append("descendants_are_not_the_tree_nodes")
+            except Exception as e:
+                res["desc"].append([-9])
+                res["notes"].append("descendants_raised_" + type(e).__name__)
+            try:
+                res["tt"].append(self.type_tree(la.type_tree()))
+            except Exception as e:
+                res["tt"].append({"t": "?raised_" + type(e).__name__, "c": []})
+            if la.start_message != la.startMessage or la.end_message != la.endMessage:
                 res["notes"].append("pep8_alias_differs")
         marg = MessageType(ty, [], "") if as_object else ty
-        res["msgs"] = [self.idx(lm.message) for lm in LoggedMessage.of_type(self.messages, marg)]
+        try:
+            res["msgs"] = [self.idx(lm.message) for lm in LoggedMessage.of_type(self.messages, marg)]
+        except Exception as e:
+            res["msgs"] = [-9]
+            res["notes"].append("message_of_type_raised_" + type(e).__name__)
         return res
 
     def assert_action(self, ty, succ, sf, ef):
@@ -194,7 +206,7 @@ class Observer:
             # the type may be given as an ActionType / MessageType object as well
             if (n + j) % 3 == 0:
                 r2 = self.of_type(ty, as_object=True)
-                if r2 != r:
+                if {k: v for k, v in r2.items() if k != "exc"} != {k: v for k, v in r.items() if k != "exc"}:
                     r["notes"].append("type_object_gives_another_answer")
             obs["types"].append(r)
         for (ty, succ, sf, ef) in aa:
